@@ -155,8 +155,11 @@ func c15Worlds() []c15World {
 	pb, pa := mk("backend-panic-before-write", wire.GRPCWeb, "Unary", "json", "gzip", nil, nil, big), mk("backend-panic-after-write", wire.ConnectUnary, "Unary", "json", "gzip", nil, nil, big)
 	pb.raw, pa.raw = panicReply(false), panicReply(true)
 	hostile = append(hostile, pb, pa)
+	// requests for a method nobody configured, in two protocols: the answer (404) is built from what the
+	// package keeps for "not found", which no earlier request may have changed
+	hostile = append(hostile, mk("unknown-method-grpc", wire.GRPC, "Nope", "proto", "", okReply, nil, small))
 	w1.history = append(append([]c15Req{}, clean...), hostile...)
-	w1.probes = clean
+	w1.probes = append(append([]c15Req{}, clean...), mk("unknown-method-connect", wire.ConnectUnary, "Nope", "json", "", okReply, nil, small))
 	// world 2: REST target (route targets, path/query encoding are shared per-rule state)
 	w2 := c15World{name: "target=REST", cfg: world.Config{Protocols: []vanguard.Protocol{vanguard.ProtocolREST}, MaxMsg: 8000}}
 	restEcho := echo(`{"name":"rest-ok"}`)
@@ -434,6 +437,12 @@ func c15Run(w c15World, history []int, probe int) (outcome string, poolKey strin
 		pi := drive.Serve(tc, rec, rec, req, spec.Body)
 		ex := &world.Exchange{Rec: rec, Body: spec.Body, Panic: pi, Req: req}
 		out := semClient(rq.form, ex, world.MsgDesc()) + " || " + semBackend(be, world.MsgDesc())
+		if rec.Status == 404 {
+			// a request answered "not found" never reached a protocol handler's response side: its whole
+			// head - also names the semantic view files under another protocol's control headers - is
+			// the transcoder's own and must be the same whatever came before
+			out += " || head=" + drive.CanonHeader(rec.HeadHeaders())
+		}
 		if containsPoison(rec.BodyBytes.Bytes()) || (be.Seen != nil && containsPoison(be.Seen.Body)) {
 			out += " || POISON"
 		}
@@ -475,7 +484,7 @@ func init() {
 	Register(&Check{
 		ID:    "C15",
 		Level: "model_checking",
-		Rule: "Explicit-state search over request histories on one Transcoder (deterministic maximal-reuse pool through the verifsync shim): world 1 (gRPC/proto/gzip target): alphabet of 21 requests (6 clean RPCs covering re-framing, re-encoding and compression on both legs incl. a 5 kB message that grows pooled buffers; validation failures, cuts inside envelope / payload / flat body, over-limit, four kinds of corrupt gzip, undecodable message, corrupt gzip response, early return, backend panic before/after its first write) and 6 probes; " +
+		Rule: "Explicit-state search over request histories on one Transcoder (deterministic maximal-reuse pool through the verifsync shim): world 1 (gRPC/proto/gzip target): alphabet of 22 requests (6 clean RPCs covering re-framing, re-encoding and compression on both legs incl. a 5 kB message that grows pooled buffers; validation failures, cuts inside envelope / payload / flat body, over-limit, four kinds of corrupt gzip, undecodable message, corrupt gzip response, early return, backend panic before/after its first write, unknown methods called in gRPC-Web and gRPC) and 7 probes (the clean RPCs and a Connect call of an unknown method, whose whole response head is compared); " +
 			"world 2 (REST target): 11 requests (incl. a backend that answers before reading a request that turns out broken) over shared route targets and 5 probes; world 3 (gRPC-Web target reached by re-framing): 10 requests incl. five malformed trailer / message frames from the backend, 4 probes; world 5 (flat Connect target with another codec; backends that answer before reading a request that turns out broken; a GET with declared compression): 8 requests, 3 probes; world 4 (a generated and a dynamic service with different type resolvers on one Transcoder): 5 requests incl. google.protobuf.Any of a dynamically known type, 4 probes. Every history of depth <= 3 (quick) / <= 4 (thorough) is replayed on a fresh Transcoder followed by each probe; the probe's semantic outcome (client and backend side) must equal its outcome on a fresh Transcoder; no pool element may be Put twice; poison must not reach outputs. " +
 			"world 7 (REST HttpBody uploads / downloads toward gRPC, one method through two bindings whose response_body differ): 6 requests, 5 probes; world 8 (REST to REST with differing compression, HttpBody payloads): 4 requests, 4 probes; handlers close the request body twice. " +
 			"A state is a history (no merging); a transition is one replayed request. Non-trivial = distinct pool-state key (multiset of pooled buffer capacities and pooled codec objects) reached before a probe.",
